@@ -128,6 +128,42 @@ NumExt(vs, i, best, wantMin) ==
   IF i > Len(vs) THEN best
   ELSE NumExt(vs, i + 1, IF (wantMin /\ NumLess(vs[i], best)) \/ (~wantMin /\ NumLess(best, vs[i])) THEN vs[i] ELSE best, wantMin)
 
+\* ---- exact sums and means of non-negative integers beyond TLC's range, on decimal digit strings
+Rev(q) == [i \in 1..Len(q) |-> q[Len(q) + 1 - i]]
+RECURSIVE AddRev(_, _, _)
+AddRev(x, y, c) ==
+  IF x = <<>> /\ y = <<>> THEN (IF c = 0 THEN <<>> ELSE <<48 + c>>)
+  ELSE LET dx == IF x = <<>> THEN 0 ELSE x[1] - 48
+           dy == IF y = <<>> THEN 0 ELSE y[1] - 48
+           t  == dx + dy + c
+       IN <<48 + (t % 10)>> \o AddRev(IF x = <<>> THEN x ELSE Tail(x), IF y = <<>> THEN y ELSE Tail(y), t \div 10)
+AddDec(x, y) == Rev(AddRev(Rev(x), Rev(y), 0))
+RECURSIVE StripZeros(_)
+StripZeros(q) == IF Len(q) > 1 /\ q[1] = 48 THEN StripZeros(Tail(q)) ELSE q
+\* long division of a digit string by a small positive integer: [q, r]
+RECURSIVE DivGo(_, _, _, _, _)
+DivGo(x, n, i, rem, acc) == IF i > Len(x) THEN [q |-> StripZeros(acc), r |-> rem]
+                            ELSE LET cur == rem * 10 + (x[i] - 48) IN DivGo(x, n, i + 1, cur % n, Append(acc, 48 + (cur \div n)))
+DivSmall(x, n) == DivGo(x, n, 1, 0, <<>>)
+DecOf(v) == IF v.t = "I" THEN v.s ELSE NatText(v.n)
+RECURSIVE SumDec(_, _, _)
+SumDec(vs, i, acc) == IF i > Len(vs) THEN acc ELSE SumDec(vs, i + 1, AddDec(acc, DecOf(vs[i])))
+MkBigOrInt(d) == IF Len(d) <= 9 THEN VInt(DigitsVal(d, 1, 0)) ELSE VBig(d)
+\* an integer-valued float as the engine's values are recorded: small ones as dyadics, from 2^31 on by their shortest text
+RECURSIVE TrimZerosR(_)
+TrimZerosR(q) == IF Len(q) > 1 /\ q[Len(q)] = 48 THEN TrimZerosR(SubSeq(q, 1, Len(q) - 1)) ELSE q
+TwoDigits(n) == IF n < 10 THEN <<48, 48 + n>> ELSE NatText(n)
+Max53 == <<57,48,48,55,49,57,57,50,53,52,55,52,48,57,57,50>>                                   \* 2^53
+Below53(d) == Len(d) < 16 \/ (Len(d) = 16 /\ ~LexLess(Max53, d))
+\* a positive integer is a float64 iff its odd part is below 2^53
+RECURSIVE IsF64Int(_, _)
+IsF64Int(d, fuel) == Below53(d) \/ (fuel > 0 /\ DivSmall(d, 2).r = 0 /\ IsF64Int(DivSmall(d, 2).q, fuel - 1))
+FloatOfDec(d) ==
+  IF Len(d) <= 9 THEN VFlt(DigitsVal(d, 1, 0), 0)
+  ELSE IF ~Below53(d) THEN VUnspec                                                                \* shortest text not modelled there
+  ELSE LET m == TrimZerosR(d) IN
+       V("F", <<m[1]>> \o (IF Len(m) > 1 THEN <<46>> \o Tail(m) ELSE <<>>) \o <<101, 43>> \o TwoDigits(Len(d) - 1), 0, 0, <<>>)
+
 Aggregate(f, args, ps, env) ==
   LET raw  == [i \in 1..Len(ps) |-> IF Len(args) >= 1 THEN Eval(args[1], ps[i], env) ELSE VUnspec]
       \* the numeric aggregates read a text argument the way int() / float() do (integer text = integer, else float text)
@@ -135,10 +171,18 @@ Aggregate(f, args, ps, env) ==
               THEN [i \in 1..Len(raw) |-> IF raw[i].t = "s" THEN (IF IsIntText(raw[i].s) THEN VInt(IntOfText(raw[i].s)) ELSE FloatOfText(raw[i].s)) ELSE raw[i]]
               ELSE raw
       allNum == \A i \in 1..Len(vals) : IsNum(vals[i])
+      \* non-negative integers of which at least one is beyond TLC's range: exact decimal arithmetic
+      bigInts == /\ Len(vals) >= 1 /\ \E i \in 1..Len(vals) : vals[i].t = "I"
+                 /\ \A i \in 1..Len(vals) : (vals[i].t = "I" /\ vals[i].s[1] # 45) \/ (vals[i].t = "i" /\ vals[i].n >= 0)
+      bigSum == SumDec(vals, 1, <<48>>)
   IN CASE f = "count" -> VInt(Len(ps))
-       [] f = "sum" -> IF allNum THEN NumSum(vals, 2, vals[1]) ELSE VUnspec
+       [] f = "sum" -> IF allNum THEN NumSum(vals, 2, vals[1])
+                       ELSE IF bigInts /\ Len(bigSum) <= 18 THEN MkBigOrInt(bigSum) ELSE VUnspec
        [] f = "avg" -> IF allNum THEN LET s == NumSum(vals, 2, vals[1]) IN
                                       IF IsBad(s) THEN VUnspec ELSE EvalMath("/", VFlt(s.n, NumD(s)), VFlt(Len(ps), 0))
+                       \* float64(sum) / float64(count): exact when the sum is a float64 and the mean an integer below 2^53
+                       ELSE IF bigInts /\ Len(bigSum) <= 18 /\ IsF64Int(bigSum, 12)
+                            THEN LET dv == DivSmall(bigSum, Len(vals)) IN IF dv.r = 0 THEN FloatOfDec(dv.q) ELSE VUnspec
                        ELSE VUnspec
        [] f = "min" -> IF allNum THEN NumExt(vals, 2, vals[1], TRUE) ELSE VUnspec
        [] f = "max" -> IF allNum THEN NumExt(vals, 2, vals[1], FALSE) ELSE VUnspec
